@@ -107,17 +107,19 @@ func c02Receiver(p *core.Prog, r *core.Report) {
 	}
 	// (i) type constancy: a comparison TypeCode() != checksumType whose true arm returns an error
 	okType := false
-	core.EachInstr(f, func(i ssa.Instruction) {
-		ret, ok := i.(*ssa.Return)
-		if !ok || !loadsGlobal(core.ReturnValues(ret)[0], "errMismatchedChecksumTypes") {
-			return
-		}
-		for _, c := range factsAt(ret.Block()).cmps {
-			if c.Op == token.NEQ && (callResult(c.X, "Checksum.TypeCode") != nil || callResult(c.Y, "Checksum.TypeCode") != nil) {
-				okType = true
+	for _, g := range p.FuncsDeep(f, 2) {
+		core.EachInstr(g, func(i ssa.Instruction) {
+			ret, ok := i.(*ssa.Return)
+			if !ok || len(ret.Results) == 0 || !loadsGlobal(core.ReturnValues(ret)[0], "errMismatchedChecksumTypes") {
+				return
 			}
-		}
-	})
+			for _, c := range factsAt(ret.Block()).cmps {
+				if c.Op == token.NEQ && (callResult(c.X, "Checksum.TypeCode") != nil || callResult(c.Y, "Checksum.TypeCode") != nil) {
+					okType = true
+				}
+			}
+		})
+	}
 	// and the success return cannot bypass it: when a checksum exists already the test is on the path
 	r.Check(okType, "C02-R3", fname(f), "checksum type must stay constant within a message", p.Pos(f.Pos()), "TypeCode() != fragment type returns an error", "a change of checksum type mid-message is accepted")
 	// (ii) every append of a chunk is paired with Add of the same chunk
@@ -164,29 +166,38 @@ func c02Receiver(p *core.Prog, r *core.Report) {
 			}
 		})
 	}
-	r.Check(okAdd && n > 0, "C02-R3", fname(f), "every chunk appended is added to the running checksum", p.Pos(f.Pos()), "append and Add of the same chunk in the same block", "chunks are accepted without being checksummed")
+	if n == 0 {
+		r.Errorf("%s: no append to the reader's chunk list found (field remainingChunks renamed or the parse loop moved): cannot decide", fname(f))
+		n = -1
+	}
+	r.Check(okAdd && n != 0, "C02-R3", fname(f), "every chunk appended is added to the running checksum", p.Pos(f.Pos()), "append and Add of the same chunk in the same block", "chunks are accepted without being checksummed")
 	// (iii) equality comparison with Sum(), failing arm returns an error, on every path to success
 	var cmpCall *ssa.Call
-	core.EachInstr(f, func(i ssa.Instruction) {
-		c, ok := i.(*ssa.Call)
-		if !ok {
-			return
-		}
-		o := core.CalleeObj(c)
-		if o == nil || (core.FuncKey(o) != "bytes.Compare" && core.FuncKey(o) != "bytes.Equal") {
-			return
-		}
-		a := core.CallArgs(c)
-		isSum := func(v ssa.Value) bool { return callResult(v, "Checksum.Sum") != nil }
-		isRecv := func(v ssa.Value) bool { fl := core.LoadedField(v); return fl != nil && fl.Name() == "checksum" }
-		if (isSum(a[0]) && isRecv(a[1])) || (isSum(a[1]) && isRecv(a[0])) {
-			cmpCall = c
-		}
-	})
+	cmpFn := f
+	for _, g := range p.FuncsDeep(f, 2) {
+		g := g
+		core.EachInstr(g, func(i ssa.Instruction) {
+			c, ok := i.(*ssa.Call)
+			if !ok {
+				return
+			}
+			o := core.CalleeObj(c)
+			if o == nil || (core.FuncKey(o) != "bytes.Compare" && core.FuncKey(o) != "bytes.Equal") {
+				return
+			}
+			a := core.CallArgs(c)
+			isSum := func(v ssa.Value) bool { return callResult(v, "Checksum.Sum") != nil }
+			isRecv := func(v ssa.Value) bool { fl := core.LoadedField(v); return fl != nil && fl.Name() == "checksum" }
+			if (isSum(a[0]) && isRecv(a[1])) || (isSum(a[1]) && isRecv(a[0])) {
+				cmpCall = c
+				cmpFn = g
+			}
+		})
+	}
 	okCmp := false
 	if cmpCall != nil {
 		// the success return is reached only under "equal"
-		core.EachInstr(f, func(i ssa.Instruction) {
+		core.EachInstr(cmpFn, func(i ssa.Instruction) {
 			if !isNilRet(i) {
 				return
 			}
@@ -202,9 +213,33 @@ func c02Receiver(p *core.Prog, r *core.Report) {
 				}
 			}
 		})
-		miss := core.ReachAvoiding(f, nil, isNilRet, func(i ssa.Instruction) bool { return i == ssa.Instruction(cmpCall) }, nil)
+		miss := core.ReachAvoiding(cmpFn, nil, isNilRet, func(i ssa.Instruction) bool { return i == ssa.Instruction(cmpCall) }, nil)
 		if miss.Found {
 			okCmp = false
+		}
+		if cmpFn != f {
+			// the comparison lives in a helper: the reader succeeds only after
+			// calling it and seeing it succeed
+			var hc *ssa.Call
+			core.EachInstr(f, func(i ssa.Instruction) {
+				if c, ok := i.(*ssa.Call); ok && c.Call.StaticCallee() == cmpFn {
+					hc = c
+				}
+			})
+			if hc == nil {
+				okCmp = false
+			} else {
+				by := core.ReachAvoiding(f, nil, isNilRet, func(i ssa.Instruction) bool { return i == ssa.Instruction(hc) }, nil)
+				okRes := false
+				core.EachInstr(f, func(i ssa.Instruction) {
+					if isNilRet(i) && factsAt(i.Block()).nilCmp(func(v ssa.Value) bool { return v == ssa.Value(hc) }, true) {
+						okRes = true
+					}
+				})
+				if by.Found || !okRes {
+					okCmp = false
+				}
+			}
 		}
 	}
 	r.Check(okCmp, "C02-R3", fname(f), "success only if received checksum == Sum() (equality)", p.Pos(f.Pos()), "nil return requires the comparison to say 'equal'", "a fragment can be accepted without an equality match of its checksum")
@@ -374,7 +409,7 @@ func c02Registry(p *core.Prog, r *core.Report) {
 		ok := false
 		core.EachInstr(f, func(i ssa.Instruction) {
 			if ret, isRet := i.(*ssa.Return); isRet {
-				if fl := core.LoadedField(ret.Results[0]); fl != nil && fl.Name() == "checksumType" {
+				if fl := core.LoadedField(core.ReturnValues(ret)[0]); fl != nil && fl.Name() == "checksumType" {
 					ok = true
 				}
 			}
